@@ -157,7 +157,11 @@ func runModule(t *testing.T, mk func() *adapter, n hx.N) {
 					}
 					if len(idx) > 0 {
 						j := idx[rapid.IntRange(0, len(idx)-1).Draw(t, "rule")]
-						if rapid.IntRange(0, 2).Draw(t, "twin") == 0 {
+						if a.family != nil && rapid.IntRange(0, 2).Draw(t, "switchFamily") == 0 {
+							a.family(t, l[j])
+							c.Op("edit: rule %d of an earlier list changes its strategy/behaviour family: %s", j, a.key(l[j]))
+							sawEdit = true
+						} else if rapid.IntRange(0, 2).Draw(t, "twin") == 0 {
 							// the same rule listed twice (equal values, distinct objects), next to each other or at the end
 							tw := a.clone(l[j])
 							if rapid.Bool().Draw(t, "adjacent") {
